@@ -301,8 +301,7 @@ def run(ctx):
                     else:
                         judge_line(ctx, srv, model, f, t2, l1, colx, "none", None, ws.files | {rel: t2}, "typing")
                 srv.did_change(f, doc)
-            if i < 2:
-                ctx.sample({"doc": doc[:1000], "visible": sorted(model.visible_names(f))})
+            ctx.sample({"doc": doc[:1000], "visible": sorted(model.visible_names(f))})
             ctx.count("documents")
         finally:
             un = srv.unanswered()
